@@ -68,6 +68,7 @@ func checkC03(r *Run) {
 
 	c03Readmsg(r, rm)
 	c03ReadFcall(r, rf, rm)
+	c02OverflowExposed(r)
 	// the overflow test and the discard compare the frame length with len(ch.rdbuf): both are right only while
 	// len(rdbuf) == msize, which newChannel establishes and SetMSize must preserve on every path
 	if sm, nc := r.P.Fn("p9p:(*channel).SetMSize"), r.P.Fn("p9p:newChannel"); sm != nil && nc != nil {
